@@ -10,6 +10,7 @@ Used by C02 / C03 / C08.  Every failing case is a concrete (description, format)
 """
 import json
 import os
+import time
 
 STALE = b"\xa5" * 100000
 
@@ -87,6 +88,7 @@ def writers_stream(ck, tmp, descs, label="writers"):
             p = os.path.join(d, f"out{i}.{fmt}")
             with open(p, "wb") as fh:
                 fh.write(STALE)
+            os.utime(p, (time.time() + 3600, time.time() + 3600))
             try:
                 (M.to_json_file if fmt == "json" else M.to_yaml_file)(p, json.loads(json.dumps(want)), False)
                 got = (M.from_json_file if fmt == "json" else M.from_yaml_file)(p)
@@ -113,6 +115,7 @@ def envelope_writer_stream(ck, tmp, create_bytes, label="envelope-writer"):
             "suit-manifest": {"suit-manifest-version": 1, "suit-manifest-sequence-number": seq, "suit-reference-uri": uri}}}
     with open(out, "wb") as fh:
         fh.write(STALE)
+    os.utime(out, (time.time() + 3600, time.time() + 3600))
     history = []
     for seq, uri in ((1, "u" * 40), (2, "u" * 40), (3, "v" * 40), (4, "w"), (5, "x" * 300), (6, "x" * 300)):
         dd = desc(seq, uri)
